@@ -1,1 +1,494 @@
-/- C10: property theorems (not built yet). -/
+/-
+  C10 — Operators are total and follow Excel coercion, error and ordering rules.
+
+  Statement (properties.jsonl): "For all scalar operands (numbers of moderate magnitude, text, logicals, blank, error
+  values) every operator returns a number, text, logical or error value and never raises or yields another type; an
+  error operand is returned unchanged, the left one first. Arithmetic treats numeric text, logicals and blanks as
+  numbers and other text as #VALUE!, x/0 is #DIV/0!, & concatenates the Excel renderings (TRUE/FALSE, 3 not 3.0,
+  blank as empty); comparisons form one total order (numbers < text < logicals, text case-insensitive, blank as the
+  neutral value of the other side) in which exactly one of <, =, > holds and <>, <=, >= are the complements."
+
+  Model: Pycel/Model/Ops.lean — `fixup K l op r` (excelutil.py build_operator_operand_fixup.fixup), parametrised by the
+  numeric kernels `K` (operator.add/sub/mul/truediv/pow/neg on two numbers, classified as ok / ZeroDivisionError /
+  OverflowError / complex / non-finite float).  Every theorem below is for ALL kernels unless it names `pyKernels`,
+  so nothing depends on floating-point details.  Unary minus is `neg K x = fixup K EMPTY usub x`, percent is
+  `pct K x = fixup K x div 100`, exactly as the formula compiler emits them.
+
+  Conventions: an operand "is an error" iff it is `.err e` (in Python an error value is its text; `Val.ofText` keeps
+  results canonical).  The text '#EMPTY!' is pycel's internal spelling of a blank operand, not a text value; the
+  theorems about text exclude it explicitly (`s ≠ emptySentinel`).
+-/
+import Pycel.Lemmas.Ops
+import Pycel.Generated.OpsConsts
+namespace Pycel.Ops
+open Pycel
+
+/-! ### the live tables the model is written against -/
+
+/-- ERROR_CODES (the seven Excel errors + openpyxl's '#GETTING_DATA'), EMPTY, COMPARISION_OPS, the operator names and
+    the three error texts `fixup` returns, regenerated from the live excelutil on every run -/
+theorem tables_agree :
+    (∀ e : Err, e.text ∈ Gen.errorCodes) ∧ Gen.errorCodes.length = 8 ∧ "#GETTING_DATA" ∈ Gen.errorCodes ∧
+    String.ofList emptySentinel = Gen.emptyText ∧
+    (∀ op : Op, op.pyName ∈ Gen.astOperators) ∧
+    (∀ op : Op, op.isCmp = true ↔ op.pyName ∈ Gen.comparisonOps) ∧ Gen.comparisonOps.length = 6 ∧
+    Err.div0.text = Gen.div0Text ∧ Err.value.text = Gen.valueErrorText ∧ Err.num.text = Gen.numErrorText := by
+  refine ⟨?_, by decide, by decide, by decide, ?_, ?_, by decide, by decide, by decide, by decide⟩
+  · intro e; cases e <;> decide
+  · intro op; cases op <;> decide
+  · intro op; cases op <;> decide
+
+/-! ### vocabulary -/
+
+def Val.notErr (v : Val) : Prop := ∀ e, v ≠ .err e
+
+def Op.isArith : Op → Bool
+  | .add | .sub | .mul | .div | .pow => true
+  | _ => false
+
+/-- a kernel family that never produces a non-finite float (true of Python on operands of moderate magnitude:
+    `+ - * /` overflow binary64 only beyond 1e154, and `**` raises OverflowError instead) -/
+def Kernels.Finite (K : Kernels) : Prop :=
+  (∀ x y, K.add x y ≠ .nonfinite) ∧ (∀ x y, K.sub x y ≠ .nonfinite) ∧ (∀ x y, K.mul x y ≠ .nonfinite) ∧
+  (∀ x y, K.div x y ≠ .nonfinite) ∧ (∀ x y, K.pow x y ≠ .nonfinite) ∧ (∀ x, K.neg x ≠ .nonfinite)
+
+/-- "numeric text, logicals and blanks as numbers": the number an operand of an arithmetic operator stands for;
+    `none` = "other text" -/
+def arithNum? : Val → Option Rat
+  | .num q => some q
+  | .bool b => some (if b then 1 else 0)
+  | .blank => some 0
+  | .str s => if upper s = emptySentinel then some 0 else if isLogicalText s then none else parseNum? s
+  | .err _ => none
+
+def numOf? : Val → Option Rat
+  | .num q => some q
+  | _ => none
+
+private theorem match_num (a b : Val) (f : Rat → Rat → Outcome) (d : Outcome) :
+    (match a, b with | .num x, .num y => f x y | _, _ => d)
+      = (match numOf? a, numOf? b with | some x, some y => f x y | _, _ => d) := by
+  cases a <;> cases b <;> rfl
+
+private theorem match_num1 (b : Val) (f : Rat → Outcome) (d : Outcome) :
+    (match b with | .num y => f y | _ => d) = (match numOf? b with | some y => f y | none => d) := by
+  cases b <;> rfl
+
+private theorem sentinel_len : emptySentinel.length = 7 := by decide
+
+private theorem upper_length (s : List Char) : (upper s).length = s.length := by simp [upper]
+
+/-- the coerced operand is a number exactly when the property says the operand stands for one -/
+theorem arithOperand_spec (v : Val) (hv : Val.notErr v) : numOf? (arithOperand v) = arithNum? v := by
+  cases v with
+  | num q => rfl
+  | bool b => cases b <;> rfl
+  | blank => rfl
+  | err e => exact absurd rfl (hv e)
+  | str s =>
+    simp only [arithOperand, arithNum?]
+    by_cases hlog : isLogicalText s = true
+    · have hs : upper s ≠ emptySentinel := by
+        intro h
+        simp only [isLogicalText, h] at hlog
+        revert hlog; decide
+      simp [hlog, hs, numOf?]
+    · simp only [hlog, Bool.false_eq_true, ↓reduceIte]
+      simp only [isLogicalText, Bool.or_eq_true, not_or, Bool.not_eq_true] at hlog
+      by_cases hs : upper s = emptySentinel
+      · have hlen : s.length = 7 := by rw [← upper_length, hs, sentinel_len]
+        have : (upper s == emptySentinel) = true := by simp [hs]
+        simp [coerceToNumber, hs, hlen, numOf?]
+      · have : (upper s == emptySentinel) = false := by simp [hs]
+        simp only [coerceToNumber, hlog.1, hlog.2, this, Bool.or_self, Bool.and_false, Bool.false_eq_true,
+          ↓reduceIte, hs]
+        cases parseNum? s <;> rfl
+
+theorem notErr_or (v : Val) : Val.notErr v ∨ ∃ e, v = .err e := by
+  cases v <;> simp [Val.notErr]
+
+private theorem mapK_val (k : KOut) (h : k ≠ .nonfinite) : ∃ v, mapK k = .val v ∧ v ≠ .blank := by
+  cases k <;> simp_all [mapK]
+
+/-! ### totality -/
+
+/-- the operands as `fixup` sees them, case by case (used by the theorems below) -/
+theorem fixup_notErr (K : Kernels) (l r : Val) (op : Op) (hl : Val.notErr l) (hr : Val.notErr r) :
+    fixup K l op r =
+      if op.isCmp then .val (.bool (cmpOp op (cmpOperands l r).1 (cmpOperands l r).2))
+      else if op = .concat then .val (Val.ofText (concatText l ++ concatText r))
+      else if op = .usub then
+        (match arithNum? r with | some y => mapK (K.neg y) | none => .val (.err .value))
+      else
+        (match arithNum? l, arithNum? r with
+          | some x, some y => mapK (kernel K op x y)
+          | _, _ => .val (.err .value)) := by
+  have e1 : ∀ e, l = .err e → False := fun e h => hl e h
+  have e2 : ∀ e, r = .err e → False := fun e h => hr e h
+  rw [← arithOperand_spec l hl, ← arithOperand_spec r hr, ← match_num, ← match_num1]
+  cases l <;> cases r <;> first | (exfalso; exact e1 _ rfl) | (exfalso; exact e2 _ rfl) | rfl
+
+private theorem ofText_ne_blank (s : List Char) : Val.ofText s ≠ .blank := by
+  unfold Val.ofText; split <;> simp
+
+/-- "every operator returns a number, text, logical or error value and never raises or yields another type":
+    for every classification the numeric kernels may return other than a non-finite float, the result of every
+    operator on every pair of operands is an Excel value.  (With the mapping of the pinned commit this was false:
+    see `C10_total_pinned_counterexample`; OverflowError and complex are now mapped to #NUM!.) -/
+theorem C10_total (K : Kernels) (hK : K.Finite) (l : Val) (op : Op) (r : Val) :
+    ∃ v, fixup K l op r = .val v := by
+  obtain ⟨h1, h2, h3, h4, h5, h6⟩ := hK
+  by_cases hl : Val.notErr l
+  · by_cases hr : Val.notErr r
+    · rw [fixup_notErr K l r op hl hr]
+      by_cases hc : op.isCmp = true
+      · simp [hc]
+      · by_cases hcat : op = .concat
+        · simp [hcat, Op.isCmp]
+        · by_cases hu : op = .usub
+          · subst hu
+            simp only [Op.isCmp, Bool.false_eq_true, ↓reduceIte, reduceCtorEq]
+            cases arithNum? r with
+            | none => exact ⟨_, rfl⟩
+            | some y => obtain ⟨v, hv, _⟩ := mapK_val (K.neg y) (h6 y); exact ⟨v, hv⟩
+          · simp only [hc, hcat, hu, ↓reduceIte]
+            cases arithNum? l with
+            | none => exact ⟨_, rfl⟩
+            | some x =>
+              cases arithNum? r with
+              | none => exact ⟨_, rfl⟩
+              | some y =>
+                have : kernel K op x y ≠ .nonfinite := by
+                  cases op <;> simp_all [kernel]
+                obtain ⟨v, hv, _⟩ := mapK_val _ this
+                exact ⟨v, hv⟩
+    · obtain ⟨e, rfl⟩ := (notErr_or r).resolve_left hr
+      cases l <;> exact ⟨_, rfl⟩
+  · obtain ⟨e, rfl⟩ := (notErr_or l).resolve_left hl
+    exact ⟨_, rfl⟩
+
+/-- the result is never the blank value (nor, by construction of `Val`, anything but number/text/logical/error) -/
+theorem C10_never_blank (K : Kernels) (l : Val) (op : Op) (r : Val) : fixup K l op r ≠ .val .blank := by
+  have hm : ∀ k, mapK k ≠ .val .blank := by intro k; cases k <;> simp [mapK]
+  rcases notErr_or l with hl | ⟨e, rfl⟩
+  · rcases notErr_or r with hr | ⟨e, rfl⟩
+    · rw [fixup_notErr K l r op hl hr]
+      cases op <;> simp only [Op.isCmp, Bool.false_eq_true, ↓reduceIte, reduceCtorEq, ne_eq, Outcome.val.injEq]
+      all_goals first
+        | exact ofText_ne_blank _
+        | simp
+        | (cases arithNum? r <;> simp [hm])
+        | (cases arithNum? l <;> cases arithNum? r <;> simp [hm])
+    · cases l <;> simp [fixup]
+  · simp [fixup]
+
+/-- the exception mapping of the pinned commit (before the `fix:` commit): OverflowError was not caught and a
+    complex result was returned as is -/
+inductive PinnedOutcome where
+  | val (v : Val) | raisesOverflowError | pythonComplex | nonfinite
+  deriving DecidableEq
+
+def mapKPinned : KOut → PinnedOutcome
+  | .ok q => .val (.num q)
+  | .zeroDiv => .val (.err .div0)
+  | .overflow => .raisesOverflowError
+  | .complex => .pythonComplex
+  | .nonfinite => .nonfinite
+
+/-- totality was false of the pinned code: A1 = -8, `=A1^0.5` is a Python complex, and any overflowing `^`
+    (recon: `=10.5^400`) escapes as OverflowError; the repaired mapping sends both classes to #NUM! -/
+theorem C10_total_pinned_counterexample :
+    pyKernels.pow (-8) (1/2) = .complex ∧ mapKPinned .complex = .pythonComplex ∧
+    mapKPinned .overflow = .raisesOverflowError ∧
+    fixup pyKernels (.num (-8)) .pow (.num (1/2)) = .val (.err .num) ∧
+    (∀ K : Kernels, ∀ x y, K.pow x y = .overflow → fixup K (.num x) .pow (.num y) = .val (.err .num)) := by
+  have h : pyKernels.pow (-8) (1/2) = .complex := by decide +kernel
+  refine ⟨h, rfl, rfl, ?_, ?_⟩
+  · rw [fixup_notErr _ _ _ .pow (by intro e; simp) (by intro e; simp)]
+    simp [Op.isCmp, arithNum?, kernel, h, mapK]
+  · intro K x y hxy
+    rw [fixup_notErr _ _ _ .pow (by intro e; simp) (by intro e; simp)]
+    simp [Op.isCmp, arithNum?, kernel, hxy, mapK]
+
+/-! ### errors -/
+
+/-- "an error operand is returned unchanged, the left one first" -/
+theorem C10_err_left (K : Kernels) (e : Err) (op : Op) (r : Val) : fixup K (.err e) op r = .val (.err e) := rfl
+
+/-- "an error operand is returned unchanged" — the right one when the left operand is not an error -/
+theorem C10_err_right (K : Kernels) (l : Val) (hl : Val.notErr l) (e : Err) (op : Op) :
+    fixup K l op (.err e) = .val (.err e) := by
+  cases l with
+  | err e' => exact absurd rfl (hl e')
+  | _ => rfl
+
+/-! ### arithmetic -/
+
+/-- "Arithmetic treats numeric text, logicals and blanks as numbers and other text as #VALUE!": for + - * / ^ the
+    result is the kernel's outcome on the numbers the operands stand for, or #VALUE! when one of them is other text;
+    ZeroDivisionError is #DIV/0!, OverflowError and complex are #NUM! (`mapK`) -/
+theorem C10_arith_coerce (K : Kernels) (l r : Val) (op : Op) (hop : op.isArith = true)
+    (hl : Val.notErr l) (hr : Val.notErr r) :
+    fixup K l op r =
+      match arithNum? l, arithNum? r with
+      | some x, some y => mapK (kernel K op x y)
+      | _, _ => .val (.err .value) := by
+  rw [fixup_notErr K l r op hl hr]
+  cases op <;> simp_all [Op.isArith, Op.isCmp]
+
+/-- the kinds that count as numbers: TRUE is 1, FALSE and blank are 0, numeric text is its number -/
+theorem C10_arith_kinds (s : List Char) (q : Rat) (hs : upper s ≠ emptySentinel) (hlog : isLogicalText s = false)
+    (hq : parseNum? s = some q) :
+    arithNum? (.bool true) = some 1 ∧ arithNum? (.bool false) = some 0 ∧ arithNum? .blank = some 0 ∧
+    arithNum? (.str s) = some q ∧ (∀ x, arithNum? (.num x) = some x) ∧
+    (∀ K y, fixup K (.str s) .add (.num y) = mapK (K.add q y)) ∧
+    (∀ K y, fixup K (.bool true) .mul (.num y) = mapK (K.mul 1 y)) ∧
+    (∀ K y, fixup K .blank .sub (.num y) = mapK (K.sub 0 y)) := by
+  have hstr : arithNum? (.str s) = some q := by simp [arithNum?, hs, hlog, hq]
+  refine ⟨rfl, rfl, rfl, hstr, fun _ => rfl, ?_, ?_, ?_⟩
+  · intro K y
+    rw [C10_arith_coerce K _ _ .add rfl (by intro e; simp) (by intro e; simp), hstr]; rfl
+  · intro K y
+    rw [C10_arith_coerce K _ _ .mul rfl (by intro e; simp) (by intro e; simp)]; rfl
+  · intro K y
+    rw [C10_arith_coerce K _ _ .sub rfl (by intro e; simp) (by intro e; simp)]; rfl
+
+/-- "other text as #VALUE!": on either side, whatever the other (non-error) operand is -/
+theorem C10_other_text_value (K : Kernels) (s : List Char) (v : Val) (op : Op) (hop : op.isArith = true)
+    (hv : Val.notErr v) (hs : arithNum? (.str s) = none) :
+    fixup K (.str s) op v = .val (.err .value) ∧ fixup K v op (.str s) = .val (.err .value) := by
+  constructor
+  · rw [C10_arith_coerce K _ _ op hop (by intro e; simp) hv, hs]
+  · rw [C10_arith_coerce K _ _ op hop hv (by intro e; simp), hs]
+    cases arithNum? v <;> rfl
+
+/-- unary minus follows the same rules on its single operand -/
+theorem C10_neg (K : Kernels) (x : Val) :
+    neg K x = match x with
+      | .err e => .val (.err e)
+      | _ => match arithNum? x with
+        | some y => mapK (K.neg y)
+        | none => .val (.err .value) := by
+  cases x with
+  | err e => rfl
+  | _ =>
+    simp only [neg]
+    rw [fixup_notErr K _ _ .usub (by intro e; simp) (by intro e; simp)]
+    simp [Op.isCmp]
+
+private theorem pct_aux (K : Kernels) (o : Option Rat) :
+    (match o, some (100 : Rat) with
+      | some x, some y => mapK (kernel K .div x y)
+      | _, _ => Outcome.val (.err .value))
+    = (match o with | some q => mapK (K.div q 100) | none => .val (.err .value)) := by
+  cases o <;> rfl
+
+/-- percent is division by 100 under the same rules -/
+theorem C10_pct (K : Kernels) (x : Val) :
+    pct K x = match x with
+      | .err e => .val (.err e)
+      | _ => match arithNum? x with
+        | some q => mapK (K.div q 100)
+        | none => .val (.err .value) := by
+  cases x with
+  | err e => rfl
+  | _ =>
+    simp only [pct]
+    rw [C10_arith_coerce K _ _ .div rfl (by intro e; simp) (by intro e; simp)]
+    have h100 : arithNum? (.num 100) = some 100 := rfl
+    rw [h100]
+    generalize arithNum? _ = o
+    cases o <;> rfl
+
+theorem pyKernels_div_zero (x : Rat) : pyKernels.div x 0 = .zeroDiv := by simp [pyKernels]
+
+/-- "x/0 is #DIV/0!" for every numerator that stands for a number and every zero-valued divisor (0, FALSE, blank,
+    "0", …), with the Python kernels -/
+theorem C10_div0 (l r : Val) (x : Rat) (hl : Val.notErr l) (hr : Val.notErr r)
+    (hx : arithNum? l = some x) (h0 : arithNum? r = some 0) :
+    fixup pyKernels l .div r = .val (.err .div0) := by
+  rw [C10_arith_coerce pyKernels l r .div rfl hl hr, hx, h0]
+  simp [kernel, pyKernels_div_zero, mapK]
+
+/-! ### concatenation -/
+
+/-- "& concatenates the Excel renderings" -/
+theorem C10_concat_render (K : Kernels) (l r : Val) (hl : Val.notErr l) (hr : Val.notErr r) :
+    fixup K l .concat r = .val (Val.ofText (concatText l ++ concatText r)) := by
+  rw [fixup_notErr K l r .concat hl hr]; simp [Op.isCmp]
+
+/-- "(TRUE/FALSE, 3 not 3.0, blank as empty)": logicals render as TRUE/FALSE, an integral number as its integer
+    digits (no ".0"), blank as the empty text, text as itself; the concatenation is a text unless it spells an
+    error value -/
+theorem C10_render_kinds :
+    concatText (.bool true) = "TRUE".toList ∧ concatText (.bool false) = "FALSE".toList ∧
+    concatText .blank = [] ∧
+    (∀ i : Int, concatText (.num (i : Rat)) = intRepr i) ∧
+    intRepr 3 = ['3'] ∧ intRepr (-12) = ['-', '1', '2'] ∧
+    (∀ s, s ≠ emptySentinel → concatText (.str s) = s) ∧
+    (∀ s, errOfText? s = none → Val.ofText s = .str s) := by
+  refine ⟨by decide, by decide, rfl, ?_, by decide, by decide, ?_, ?_⟩
+  · intro i
+    simp [concatText, isEmptyLike, renderVal, renderNum, Rat.den_intCast, Rat.num_intCast]
+  · intro s hs
+    simp [concatText, isEmptyLike, renderVal, hs]
+  · intro s hs
+    simp [Val.ofText, hs]
+
+/-! ### comparisons -/
+
+/-- every comparison returns a logical: the tuple comparison of the two ExcelCmp keys -/
+theorem C10_cmp_result (K : Kernels) (l r : Val) (op : Op) (hop : op.isCmp = true)
+    (hl : Val.notErr l) (hr : Val.notErr r) :
+    fixup K l op r = .val (.bool (cmpOp op (cmpOperands l r).1 (cmpOperands l r).2)) := by
+  rw [fixup_notErr K l r op hl hr]; simp [hop]
+
+private def T : Outcome := .val (.bool true)
+private def F : Outcome := .val (.bool false)
+
+/-- "exactly one of <, =, > holds" — for every pair of non-error operands, blanks included -/
+theorem C10_trichotomy (K : Kernels) (l r : Val) (hl : Val.notErr l) (hr : Val.notErr r) :
+    (fixup K l .lt r = .val (.bool true) ∧ fixup K l .eq r = .val (.bool false) ∧ fixup K l .gt r = .val (.bool false)) ∨
+    (fixup K l .lt r = .val (.bool false) ∧ fixup K l .eq r = .val (.bool true) ∧ fixup K l .gt r = .val (.bool false)) ∨
+    (fixup K l .lt r = .val (.bool false) ∧ fixup K l .eq r = .val (.bool false) ∧ fixup K l .gt r = .val (.bool true)) := by
+  rw [C10_cmp_result K l r .lt rfl hl hr, C10_cmp_result K l r .eq rfl hl hr, C10_cmp_result K l r .gt rfl hl hr]
+  generalize (cmpOperands l r).1 = a
+  generalize (cmpOperands l r).2 = b
+  simp only [cmpOp]
+  by_cases h1 : keyLt a b = true
+  · have h2 := keyLt_asymm a b h1
+    have h3 : (a == b) = false := by
+      simp only [beq_eq_false_iff_ne, ne_eq]
+      intro e; subst e; rw [keyLt_irrefl] at h1; cases h1
+    simp [h1, h2, h3]
+  · simp only [Bool.not_eq_true] at h1
+    by_cases h2 : keyLt b a = true
+    · have h3 : (a == b) = false := by
+        simp only [beq_eq_false_iff_ne, ne_eq]
+        intro e; subst e; rw [keyLt_irrefl] at h2; cases h2
+      simp [h1, h2, h3]
+    · simp only [Bool.not_eq_true] at h2
+      have := keyLt_total a b h1 h2
+      subst this
+      simp [h1]
+
+/-- "<>, <=, >= are the complements" of =, >, < -/
+theorem C10_complements (K : Kernels) (l r : Val) (hl : Val.notErr l) (hr : Val.notErr r) :
+    ∃ e lt gt : Bool,
+      fixup K l .eq r = .val (.bool e) ∧ fixup K l .ne r = .val (.bool (!e)) ∧
+      fixup K l .lt r = .val (.bool lt) ∧ fixup K l .ge r = .val (.bool (!lt)) ∧
+      fixup K l .gt r = .val (.bool gt) ∧ fixup K l .le r = .val (.bool (!gt)) := by
+  refine ⟨(cmpOperands l r).1 == (cmpOperands l r).2, keyLt (cmpOperands l r).1 (cmpOperands l r).2,
+    keyLt (cmpOperands l r).2 (cmpOperands l r).1, ?_, ?_, ?_, ?_, ?_, ?_⟩ <;>
+  · rw [C10_cmp_result K l r _ rfl hl hr]
+    simp [cmpOp, keyLe_eq_not_gt]
+
+/-- "comparisons form one total order": `<` on comparison keys is transitive (with irreflexivity and totality,
+    `keyLt_irrefl` / `keyLt_total`, a strict total order) -/
+theorem C10_trans (a b c : Key) (h1 : keyLt a b = true) (h2 : keyLt b c = true) : keyLt a c = true :=
+  keyLt_trans a b c h1 h2
+
+/-- an element of the order: a number, a text or a logical (blank is "the neutral value of the other side", not an
+    element; see `C10_trans_blank_counterexample`) -/
+def Val.isElem (v : Val) : Prop := Val.notErr v ∧ isEmptyLike v = false
+
+private theorem cmpOperands_elem (l r : Val) (hl : isEmptyLike l = false) (hr : isEmptyLike r = false) :
+    cmpOperands l r = (cmpKey l, cmpKey r) := by
+  simp [cmpOperands, hl, hr]
+
+/-- transitivity of the operators `<` and `=` over all triples of numbers, texts and logicals -/
+theorem C10_trans_vals (a b c : Val) (ha : Val.isElem a) (hb : Val.isElem b) (hc : Val.isElem c) :
+    (excelLt a b = true → excelLt b c = true → excelLt a c = true) ∧
+    (excelEq a b = true → excelLt b c = true → excelLt a c = true) ∧
+    (excelLt a b = true → excelEq b c = true → excelLt a c = true) ∧
+    (excelEq a b = true → excelEq b c = true → excelEq a c = true) := by
+  simp only [excelLt, excelEq, cmpOperands_elem _ _ ha.2 hb.2, cmpOperands_elem _ _ hb.2 hc.2,
+    cmpOperands_elem _ _ ha.2 hc.2, beq_iff_eq]
+  refine ⟨keyLt_trans _ _ _, ?_, ?_, ?_⟩
+  · intro h1 h2; rw [h1]; exact h2
+  · intro h1 h2; rw [← h2]; exact h1
+  · intro h1 h2; rw [h1]; exact h2
+
+/-- with blank as an operand the three relations are not one order: 1 > blank and blank = "" but "" > 1 -/
+theorem C10_trans_blank_counterexample :
+    excelGt (.num 1) .blank = true ∧ excelEq .blank (.str []) = true ∧ excelGt (.str []) (.num 1) = true := by
+  decide +kernel
+
+/-- "numbers < text < logicals" -/
+theorem C10_rank (q : Rat) (s : List Char) (b : Bool) (hs : s ≠ emptySentinel) :
+    excelLt (.num q) (.str s) = true ∧ excelLt (.str s) (.bool b) = true ∧ excelLt (.num q) (.bool b) = true ∧
+    excelLt (.str s) (.num q) = false ∧ excelLt (.bool b) (.str s) = false ∧ excelLt (.bool b) (.num q) = false ∧
+    excelEq (.num q) (.str s) = false ∧ excelEq (.str s) (.bool b) = false ∧ excelEq (.num q) (.bool b) = false := by
+  have hs' : (s == emptySentinel) = false := by simp [hs]
+  simp [excelLt, excelEq, cmpOperands, isEmptyLike, hs', cmpKey, keyLt, Key.rank]
+
+/-- "text case-insensitive": two texts compare by their case-folded spellings, in particular texts that differ
+    only in case are equal and neither is less -/
+theorem C10_ci (s t : List Char) (hs : s ≠ emptySentinel) (ht : t ≠ emptySentinel) :
+    excelEq (.str s) (.str t) = (lower s == lower t) ∧
+    excelLt (.str s) (.str t) = strLt (lower s) (lower t) ∧
+    (lower s = lower t → ∀ K, fixup K (.str s) .eq (.str t) = .val (.bool true) ∧
+                              fixup K (.str s) .lt (.str t) = .val (.bool false) ∧
+                              fixup K (.str s) .gt (.str t) = .val (.bool false)) := by
+  have hs' : (s == emptySentinel) = false := by simp [hs]
+  have ht' : (t == emptySentinel) = false := by simp [ht]
+  have hops : cmpOperands (.str s) (.str t) = (.str (lower s), .str (lower t)) := by
+    simp [cmpOperands, isEmptyLike, hs', ht', cmpKey]
+  refine ⟨?_, ?_, ?_⟩
+  · simp only [excelEq, hops]
+    rw [Bool.eq_iff_iff]; simp
+  · simp [excelLt, hops, keyLt]
+  · intro h K
+    rw [C10_cmp_result K _ _ .eq rfl (by intro e; simp) (by intro e; simp),
+      C10_cmp_result K _ _ .lt rfl (by intro e; simp) (by intro e; simp),
+      C10_cmp_result K _ _ .gt rfl (by intro e; simp) (by intro e; simp), hops]
+    simp [cmpOp, h, keyLt, strLt_irrefl]
+
+/-- "blank as the neutral value of the other side": blank compares as 0 against a number, as the empty text against
+    a text, as FALSE against a logical, and equal to another blank -/
+theorem C10_blank_neutral (q : Rat) (s : List Char) (b : Bool) (hs : s ≠ emptySentinel) :
+    cmpOperands .blank (.num q) = (.num 0, .num q) ∧ cmpOperands (.num q) .blank = (.num q, .num 0) ∧
+    cmpOperands .blank (.str s) = (.str [], .str (lower s)) ∧ cmpOperands (.str s) .blank = (.str (lower s), .str []) ∧
+    cmpOperands .blank (.bool b) = (.bool false, .bool b) ∧ cmpOperands (.bool b) .blank = (.bool b, .bool false) ∧
+    cmpOperands .blank .blank = (.num 0, .num 0) ∧
+    excelEq .blank (.num 0) = true ∧ excelEq .blank (.str []) = true ∧ excelEq .blank (.bool false) = true ∧
+    excelEq .blank .blank = true := by
+  have hs' : (s == emptySentinel) = false := by simp [hs]
+  refine ⟨by simp [cmpOperands, isEmptyLike, typeCmpValue, cmpKey],
+    by simp [cmpOperands, isEmptyLike, typeCmpValue, cmpKey],
+    by simp [cmpOperands, isEmptyLike, typeCmpValue, cmpKey, hs', lower],
+    by simp [cmpOperands, isEmptyLike, typeCmpValue, cmpKey, hs', lower],
+    by simp [cmpOperands, isEmptyLike, typeCmpValue, cmpKey],
+    by simp [cmpOperands, isEmptyLike, typeCmpValue, cmpKey],
+    by simp [cmpOperands, isEmptyLike, typeCmpValue, cmpKey],
+    by decide +kernel, by decide +kernel, by decide +kernel, by decide +kernel⟩
+
+/-! ### what counts as numeric text (the property-driven grammar), on the recon witnesses -/
+
+theorem C10_numeric_text_examples :
+    parseNum? "3".toList = some 3 ∧ parseNum? " 3 ".toList = some 3 ∧ parseNum? "-2".toList = some (-2) ∧
+    parseNum? "1.5".toList = some (3/2) ∧ parseNum? "1e3".toList = some 1000 ∧ parseNum? ".5".toList = some (1/2) ∧
+    parseNum? "inf".toList = none ∧ parseNum? "nan".toList = none ∧ parseNum? "Infinity".toList = none ∧
+    parseNum? "1_0".toList = none ∧ parseNum? "".toList = none ∧ parseNum? "abc".toList = none ∧
+    parseNum? "1e400".toList = none ∧ parseNum? "0x10".toList = none ∧ parseNum? "1 2".toList = none := by
+  decide +kernel
+
+/-! ### non-vacuity: the hypotheses above are satisfiable by concrete, non-trivial instances -/
+
+example : Val.notErr (.str "abc".toList) := by intro e; simp
+example : arithNum? (.str "abc".toList) = none := by decide +kernel
+example : arithNum? (.str " 3 ".toList) = some 3 := by decide +kernel
+example : arithNum? (.str "TRUE".toList) = none := by decide +kernel
+example : Val.isElem (.str "a".toList) := ⟨by intro e; simp, by decide⟩
+example : lower "ABC".toList = lower "abc".toList ∧ "ABC".toList ≠ "abc".toList := by decide
+example : fixup pyKernels (.num 1) .div (.str "0".toList) = .val (.err .div0) := by decide +kernel
+example : fixup pyKernels (.num 3) .concat (.bool true) = .val (.str "3TRUE".toList) := by decide +kernel
+example : fixup pyKernels (.str "#DIV".toList) .concat (.str "/0!".toList) = .val (.err .div0) := by decide +kernel
+example : fixup pyKernels (.str "a".toList) .lt (.bool false) = .val (.bool true) := by decide +kernel
+/-- a kernel family satisfying `Finite` exists (so `C10_total` is not vacuous) -/
+example : Kernels.Finite ⟨fun x y => .ok (x + y), fun x y => .ok (x - y), fun x y => .ok (x * y),
+    fun x y => if y = 0 then .zeroDiv else .ok (x / y), fun _ _ => .overflow, fun x => .ok (-x)⟩ := by
+  refine ⟨by intros; simp, by intros; simp, by intros; simp, ?_, by intros; simp, by intros; simp⟩
+  intro x y; by_cases h : y = 0 <;> simp [h]
+
+end Pycel.Ops
